@@ -288,6 +288,8 @@ def run_case(real, gt, rng, mech='toy'):
     pop, blocks = build_population(real, gt, n_dim)
     kw = dict(id_key=K['id'], time_key=K['time'], obs_key=K['obs'], value_key=K['val'], dose_key=K['dose'], dose_duration_key=K['dur'])
     oo = {('o%d' % o): names[o] for o in outputs_used} if (gt['mapped'] == 'renamed' or len(set(df[K['obs']].dropna().unique())) > len(outputs_used)) else None
+    if oo is not None and len(gt['ids']) % 2 == 0:
+        oo = dict(reversed(list(oo.items())))          # the mapping may be written in any order
     with warnings.catch_warnings():
         warnings.simplefilter('ignore')
         try:
@@ -302,10 +304,11 @@ def run_case(real, gt, rng, mech='toy'):
             fixed_at = None
             if gt['fixed']:
                 nm = ctrl.get_parameter_names()
-                fixed_at = (n - 1, 0.9)
-                ctrl.fix_parameters({nm[n - 1]: 0.9})
-                if ctrl.get_n_parameters() != n - 1 or ctrl.get_parameter_names() != nm[:n - 1]:
-                    return 'after fixing %r the controller reports %s' % (nm[n - 1], ctrl.get_parameter_names())
+                j_fix = 0 if (pop is None and len(gt['ids']) % 2 == 1) else n - 1        # without a population model also a mechanistic parameter
+                fixed_at = (j_fix, 0.9)
+                ctrl.fix_parameters({nm[j_fix]: 0.9})
+                if ctrl.get_n_parameters() != n - 1 or ctrl.get_parameter_names() != nm[:j_fix] + nm[j_fix + 1:]:
+                    return 'after fixing %r the controller reports %s' % (nm[j_fix], ctrl.get_parameter_names())
                 n -= 1
             prior = pints.ComposedLogPrior(*[pints.GaussianLogPrior(1.0 + 0.1 * k, 3.0) for k in range(n)])
             ctrl.set_log_prior(prior)
@@ -328,11 +331,15 @@ def run_case(real, gt, rng, mech='toy'):
                 return 'get_dosing_regimens(): individual %r has the dose events (time, duration, amount) %s, its dose rows are %s' % (id_, got, want)
         xr = np.random.default_rng(1)
         if pop is None:
+            # all posteriors are built first and evaluated afterwards: an individual's likelihood must not change when the next one is built
+            posts = []
             for i_, id_ in enumerate(gt['ids']):
                 try:
-                    post = ctrl.get_log_posterior(individual=str(id_))
+                    posts.append(ctrl.get_log_posterior(individual=str(id_)))
                 except Exception as ex:
                     return 'get_log_posterior(individual=%r) raises %r' % (str(id_), ex)
+            for i_, id_ in enumerate(gt['ids']):
+                post = posts[i_]
                 if post.get_id() != str(id_):
                     return 'the posterior of individual %r carries the ID %r' % (id_, post.get_id())
                 for _ in range(2):
